@@ -7,8 +7,9 @@ FixNoClosed == {"dupguard"}
 KindsTP == {"thread", "process"}
 KindsP == {"process"}
 KindsAll == {"thread", "process", "remote"}
-FreeBoth == {[id |-> "free", force |-> f, ctimeout |-> t, ops |-> <<>>] : f \in {"none", "false"}, t \in {"small", "none"}}
-FreeNone == {[id |-> "free", force |-> "none", ctimeout |-> "small", ops |-> <<>>]}
+FreeBoth == {[id |-> "free", force |-> f, ctimeout |-> t, retry |-> rt, ops |-> <<>>] : f \in {"none", "false"}, t \in {"small", "none"}, rt \in {"T", "F"}}
+FreeNone == {[id |-> "free", force |-> "none", ctimeout |-> "small", retry |-> "T", ops |-> <<>>]}
+FreeNoRetry == {[id |-> "free", force |-> "none", ctimeout |-> "small", retry |-> "F", ops |-> <<>>]}
 \* planned histories for replay: [{"id": "h0", "force": "none", "ops": ["add:process", "run", "close"]}, ...]
 PlanSeq == JsonDeserialize(IOEnv.CASE_FILE)
 PlanSet == {PlanSeq[i] : i \in 1..Len(PlanSeq)}
